@@ -34,7 +34,7 @@ def run(ctx, report: Report) -> None:
     tf = ctx.types
 
     # ---- R1 ----------------------------------------------------------------------------------------------
-    r1 = report.rule('C13-R1', 'the None sentinel of the ancestor walk is tested by identity', floor=3)
+    r1 = report.rule('C13-R1', 'the None sentinel of the ancestor walk is tested by identity', floor=1)
     # variables assigned both None and a str-typed value
     none_vars, str_vars = set(), set()
     for st in walk_no_nested(fn):
@@ -89,12 +89,12 @@ def run(ctx, report: Report) -> None:
                          f'match_lang tests `{b}` by truthiness in `{unparse(test)[:70]}`; `{b}` is None for "nothing found" but '
                          f'may legitimately be the empty string (lang=""), which this test confuses with "nothing found"')
 
-    r2 = report.rule('C13-R2', 'the <meta> memo is transparent', floor=7)
+    r2 = report.rule('C13-R2', 'the <meta> memo is transparent', floor=3)
     from .sem import lang_memo_table
     lang_memo_table(ctx, r2)
 
     # ---- R3 ----------------------------------------------------------------------------------------------
-    r3 = report.rule('C13-R3', 'the walk stays inside the element\'s own document', floor=3)
+    r3 = report.rule('C13-R3', 'the walk stays inside the element\'s own document', floor=1)
     from .sem import iframe_policy
     from ..interp import Obj
     from ..tables import el_obj
@@ -151,7 +151,7 @@ def run(ctx, report: Report) -> None:
                      f'crosses namespaces (SVG/MathML inside HTML)')
 
     # ---- R6 ----------------------------------------------------------------------------------------------
-    r6 = report.rule('C13-R6', 'language of an element: nearest lang attribute, else the content-language pragma (decision table)', floor=8)
+    r6 = report.rule('C13-R6', 'language of an element: nearest lang attribute, else the content-language pragma (decision table)', floor=6)
     from .sem import lang_logic_table, lang_table
     lang_table(ctx, r6)
     lang_logic_table(ctx, r6)
